@@ -35,6 +35,7 @@ type Env struct {
 	instOnly []Val // when set: instantiate quantified hypotheses with exactly these terms and drop the quantified original
 	inQuant  bool
 	bound    map[string]Val
+	invoked  map[string]invokedFn
 	qvals    []Val           // values of the enclosing quantifiers' bound variables (outermost first)
 	altBlock *ssa.BasicBlock // second program point tried for local names (the call site of before/after)
 	altIdx   int
@@ -392,6 +393,11 @@ func (e *Env) ident(name string) Val {
 		}
 		for _, p := range tr.fn.FreeVars {
 			if p.Name() == name {
+				if capturedByRef(p) {
+					// the name denotes the variable: its current value
+					et := p.Type().Underlying().(*types.Pointer).Elem()
+					return Val{T: tr.load(e.heap, tr.val(p).T, et, "true", true), Ty: et}
+				}
 				return tr.val(p)
 			}
 		}
@@ -505,6 +511,20 @@ func (e *Env) localVarAt(name string, b *ssa.BasicBlock, idx int) (Val, bool) {
 					if in.IsAddr {
 						et := in.X.Type().Underlying().(*types.Pointer).Elem()
 						return Val{T: tr.load(e.heap, v.T, et, "true", true), Ty: et}, true
+					}
+					// the initial value of a variable that lives in memory (`r := <expr>` followed by
+					// `*alloc(r) = value`): the variable may have been assigned since, read the memory
+					if refs := in.X.Referrers(); refs != nil {
+						for _, r := range *refs {
+							if st, ok := r.(*ssa.Store); ok && st.Val == in.X {
+								if al, ok := st.Addr.(*ssa.Alloc); ok && al.Comment == name {
+									if av, ok := tr.vals[al]; ok {
+										et := al.Type().Underlying().(*types.Pointer).Elem()
+										return Val{T: tr.load(e.heap, av.T, et, "true", true), Ty: et}, true
+									}
+								}
+							}
+						}
 					}
 					return v, true
 				}
@@ -854,6 +874,11 @@ func (e *Env) addrOf(x *Expr) (string, types.Type, bool) {
 			return "", nil, false
 		}
 		if e.own {
+			for _, p := range tr.fn.FreeVars {
+				if p.Name() == x.S && capturedByRef(p) {
+					return tr.val(p).T, p.Type().Underlying().(*types.Pointer).Elem(), true
+				}
+			}
 			isParam := false
 			for _, p := range tr.fn.Params {
 				if p.Name() == x.S {
@@ -1196,6 +1221,31 @@ func (e *Env) callExpr(x *Expr) Val {
 		}
 		_, unbox := tr.smt.boxFn(tr.smt.sortOf(ty))
 		return Val{T: fmt.Sprintf("(%s (idata %s))", unbox, v.T), Ty: ty}
+	case "last", "invoked":
+		// last(f) / invoked(f) in the contract of a callee that calls its function-typed parameter f
+		if len(x.A) != 1 || x.A[0].Op != "id" {
+			e.fail("%s(param)", x.S)
+		}
+		if e.invoked != nil {
+			if inv, ok := e.invoked[x.A[0].S]; ok {
+				if x.S == "invoked" {
+					return Val{T: inv.Invoked, Ty: boolT}
+				}
+				if len(inv.Results) == 1 {
+					return inv.Results[0]
+				}
+				e.fail("last(%s): the function has %d results", x.A[0].S, len(inv.Results))
+			}
+		}
+		e.fail("%s(%s): only meaningful in the contract of a callee that declares `invokes %s`", x.S, x.A[0].S, x.A[0].S)
+	case "next":
+		if len(x.A) != 1 || x.A[0].Op != "id" {
+			e.fail("next(loopvar)")
+		}
+		if v, ok := e.vars["next:"+x.A[0].S]; ok {
+			return v
+		}
+		e.fail("next(%s): only meaningful in a step-assert of the loop that carries %s", x.A[0].S, x.A[0].S)
 	case "lastnow":
 		// instant of the most recent clock reading on the path to this point
 		if tr.curState == nil || tr.curState.lastNow == "" {
